@@ -68,12 +68,17 @@ inductive RankV where
   | flt (q : Rat)
   deriving Repr, DecidableEq
 
-/-- The `rank` argument as the user passes it. -/
+/-- The `rank` argument as the user passes it.  `npInt r` is a NumPy / JAX integer scalar (`numpy.int64(r)`,
+    `numpy.uint8(r)`, a 0-d integer array of NumPy / JAX): `validate_float_or_int` converts it with `int()`,
+    so it is the integer rank `r` (fix 4604925; before, `float()` turned it into the fraction `r.0`).
+    (The int64 range check that follows — it can only hit a `uint64` above 2^63 − 1 — is part of C20, as it is
+    for a Python int.) -/
 inductive RankIn where
   | none
   | int (r : Int)
   | flt (q : Rat)
   | nan
+  | npInt (r : Int)
   deriving Repr, DecidableEq
 
 inductive GpIn where
@@ -157,6 +162,7 @@ def validateRankOpt : RankIn → Except Refusal (Option RankV)
   | .int r => .ok (some (.int r))
   | .flt q => .ok (some (.flt q))
   | .nan => .error .rankNaN
+  | .npInt r => .ok (some (.int r))
 
 /-- `validate_positive_int` on a Python int. -/
 def validateNonnegInt (v : Int) : Except Refusal Nat :=
